@@ -207,7 +207,7 @@ for variant in ('per_degree', 'per_degree_psw', 'lumped', 'user_gain', 'user_del
                     {'power': 0.2, 'frequency': 201e12, 'propagation_direction': 'counterprop'}]}
             if e['uid'] == 'edfa (A -> B)-0':
                 # an amplifier without delta_p in front of a RamanFiber cannot be designed at all (TypeError in
-                # estimate_raman_gain: no input power is handed down by target_power) - see DESIGN.md, observation O1
+                # estimate_raman_gain: no input power is handed down by target_power) - see known finding F24
                 e['operational'] = {'delta_p': 0.0, 'gain_target': None, 'tilt_target': 0, 'out_voa': None}
     if variant == 'eol':
         eq['Span']['default'].EOL = 1.5
